@@ -378,6 +378,13 @@ def check_triple(t, exp, rep, modes=("full", "eps"), want=("W1", "W2", "W3", "W4
                     if not ok:
                         rep.add("W5-view", "%s:%s" % (key, p.cond_show()), "write-only view `%s` writes [%s] but its SerType `%s`, as which it is read back, is written/read as [%s]"
                                 % (key, p.show(), ty_str(st), " | ".join(q.show() for q in cands) or "nothing compatible"), t.loc)
+        if t.ser_impl is not None and t.des_impl is None and "W5" in want:
+            # not a view (a view is read back as its SerType): a serializable type without any reader
+            st = t.ser_impl.assoc_ty("SerType")
+            selfish = st is None or same_type(canon_params(st), canon_params(t.ser_impl.self_ty)) or st == ("param", "Self", 0)
+            rep.oblige(not selfish)
+            if selfish:
+                rep.add("W5", key, "`%s` can be serialized (SerType = Self) but has no DeserializeInner impl: it cannot be read back" % key, t.loc)
         if t.ser_impl is None and t.des_impl is not None and "W5" in want:
             rep.add("W5", key, "`%s` has a DeserializeInner impl but no SerializeInner impl" % key, t.loc)
     # path problems
